@@ -21,12 +21,12 @@ func Counts(prop, class string) bool {
 		return class == "panic" || class == "hang" || class == "deadlock" || class == "task-panic"
 	case "C09":
 		switch class {
-		case "mismatch", "order-dependent", "input-modified", "patch-modified", "pool-double-put":
+		case "mismatch", "order-dependent", "input-modified", "patch-modified", "pool-double-put", "result-clobbered":
 			return true
 		}
 	case "C10":
 		switch class {
-		case "mismatch", "race", "deadlock", "input-modified", "patch-modified", "pool-double-put", "task-panic":
+		case "mismatch", "race", "deadlock", "input-modified", "patch-modified", "pool-double-put", "task-panic", "result-clobbered":
 			return true
 		}
 	}
